@@ -1,6 +1,6 @@
 // C17 — writing then reading (formatting then parsing) gives back the same data
 // VF-VARIANT: san
-// VF-RULE: E2, one space per clause: (numbers) every string of length <= L over {0,1,9,.,-,+,e,E,space} against a reference recogniser for the strict decimal grammar and strtod/exact integer values; (format) toString(x,17)->toDouble for +-m*2^e, m in 6 mantissa patterns, every exponent -1074..1023, and toString(i)->toInt for every 17-bit int and the int32 boundaries; (tokenisers) every string of length <= L over {a,b,",",space,(,),=} x delimiter set x solid x allowEmptyTokens, re-join with the recorded splits at every cursor position; nested tokeniser on every bracket-balanced string against a depth-0 splitter; (key-values) every procedure rendered from a name and an argument map, parsed back, and every changeKeyvals substitution; (wildcards) every pattern over {a,b,*} against every name over {a,b} of length <= 5 for the three matchers vs a DP glob matcher; (variables) every map over keys {a,b,c} with values from words over {x,$(a),$(b),$(c)}; (tables) every table over cells {x,y,1} up to 3x3 and every shape up to 6x6 with distinct cells x name options x separator; (distributions) every family and nested compound x class counts 1..8 x a parameter lattice, and every mixture of an ordered pair of 12 components (two per family, so the same family next to itself with different parameters is included) plain, under an invariant class and inside another mixture, and of every ordered triple of 6 components, written then read. A case is non-trivial when the datum is non-empty / the string belongs to the grammar / the table has >= 2 cells.
+// VF-RULE: E2, one space per clause: (numbers) every string of length <= L over {0,1,9,.,-,+,e,E,space} against a reference recogniser for the strict decimal grammar and strtod/exact integer values; (format) toString(x,17)->toDouble for +-m*2^e, m in 6 mantissa patterns, every exponent -1074..1023, and toString(i)->toInt for every 17-bit int and the int32 boundaries; (tokenisers) every string of length <= L over {a,b,",",space,(,),=} x delimiter set x solid x allowEmptyTokens, re-join with the recorded splits at every cursor position; nested tokeniser on every bracket-balanced string against a depth-0 splitter; (key-values) every procedure rendered from a name and an argument map, parsed back, and every changeKeyvals substitution; (wildcards) every pattern over {a,b,*} against every name over {a,b} of length <= 5 for the three matchers vs a DP glob matcher; (variables) every map over keys {a,b,c} with values from words over {x,$(a),$(b),$(c)}; (tables) every table over cells {x,y,1} up to 3x3 and every shape up to 6x6 with distinct cells x name options x separator; (distributions) every family and nested compound x class counts 1..8 x a parameter lattice (gammas also with a shift, fixed or as a parameter), and every mixture of an ordered pair of 13 components (two per family and a shifted gamma, so the same family next to itself with different parameters is included) plain, under an invariant class and inside another mixture, and of every ordered triple of 6 components, written then read. A case is non-trivial when the datum is non-empty / the string belongs to the grammar / the table has >= 2 cells.
 // VF-BOUND: all finite doubles -> 6 mantissa patterns x all 2098 binary exponents x sign; all ints -> [-2^16,2^16] and the int32 boundaries; strings of length <= 24 -> all strings of length <= 5|6 (numbers) and <= 5|7 (tokenisers) over 7..9 characters; argument maps over 4|6 keys and 4 values (nested one level); patterns of length <= 6|8; tables up to 3x3 over 3 cell values and every shape to 6x6; distribution parameters on a lattice of 2-4 values per parameter
 // VF-LEVEL: bounded-exhaustive comparison of the real code with reference models written for the harness (recogniser, splitter, glob matcher, substitution, table and distribution equality); no sampling
 // VF-ASSUME: strtod of the C library is correctly rounded and gives the value of a decimal literal;; the reference recogniser implements the most permissive strict reading -?(D+(.D*)?|.D+)(e[+-]?D+)? for numbers and -?D+(e+?D+)? for integers with the configured decimal/exponent characters;; variable resolution that uses more than 0.05 s of CPU time does not terminate (terminating cases take microseconds)
@@ -516,6 +516,8 @@ static vector<DistSpec> distSpecs() {
   vector<DistSpec> v;
   for (size_t n = 1; n <= 8; ++n) {
     for (double a : {0.5, 1., 2.5, 0.1234567891}) for (double b : {0.5, 1., 2.}) v.push_back({"Gamma(n=" + vf::str(n) + ",alpha=" + vf::str(a) + ",beta=" + vf::str(b) + ")", [=] { return DP(new GammaDiscreteDistribution(n, a, b)); }});
+    // shifted gammas: the shift as a constructor constant and as a parameter
+    for (double off : {1.5, -1.}) for (int po = 0; po < 2; ++po) v.push_back({"Gamma(n=" + vf::str(n) + ",alpha=2.5,beta=1," + (po ? "parameter " : "fixed ") + "offset=" + vf::str(off) + ")", [=] { return DP(new GammaDiscreteDistribution(n, 2.5, 1., 0.05, 0.05, po == 1, off)); }});
     for (double a : {0.5, 2., 3.}) for (double b : {0.5, 2., 3.}) v.push_back({"Beta(n=" + vf::str(n) + ",alpha=" + vf::str(a) + ",beta=" + vf::str(b) + ")", [=] { return DP(new BetaDiscreteDistribution(n, a, b)); }});
     for (double m : {-1., 0., 2.5}) for (double s : {0.5, 1., 2.}) v.push_back({"Gaussian(n=" + vf::str(n) + ",mu=" + vf::str(m) + ",sigma=" + vf::str(s) + ")", [=] { return DP(new GaussianDiscreteDistribution(n, m, s)); }});
     for (double l : {0.5, 1., 4.}) v.push_back({"Exponential(n=" + vf::str(n) + ",lambda=" + vf::str(l) + ")", [=] { return DP(new ExponentialDiscreteDistribution(n, l)); }});
@@ -543,6 +545,7 @@ static vector<DistSpec> distSpecs() {
       {"Beta(n=2,2,3)", [] { return DP(new BetaDiscreteDistribution(2, 2., 3.)); }}, {"Beta(n=3,0.5,2)", [] { return DP(new BetaDiscreteDistribution(3, 0.5, 2.)); }},
       {"Exponential(n=2,1)", [] { return DP(new ExponentialDiscreteDistribution(2, 1.)); }}, {"Exponential(n=2,4)", [] { return DP(new ExponentialDiscreteDistribution(2, 4.)); }},
       {"Gaussian(n=2,0,1)", [] { return DP(new GaussianDiscreteDistribution(2, 0., 1.)); }}, {"Gaussian(n=2,2.5,0.5)", [] { return DP(new GaussianDiscreteDistribution(2, 2.5, 0.5)); }},
+      {"Gamma(n=2,2.5,1,fixed offset=1.5)", [] { return DP(new GammaDiscreteDistribution(2, 2.5, 1., 0.05, 0.05, false, 1.5)); }},
       {"Simple({0.5,1.5},{0.25,0.75})", [] { return DP(new SimpleDiscreteDistribution(vector<double>{0.5, 1.5}, vector<double>{0.25, 0.75})); }}, {"Simple({2,7},{0.5,0.5})", [] { return DP(new SimpleDiscreteDistribution(vector<double>{2., 7.}, vector<double>{0.5, 0.5})); }},
     };
     size_t K = lf.size();
